@@ -40,11 +40,13 @@ fn main() {
                 let a = wbmap::run(&wbmap::Config { k: 7, pairs: true, followups: true, depth2: true, wall_cap_s: envu("VERIF_WALL_CAP", 1500) });
                 let b = wbmap::run(&wbmap::Config { k: envu("VERIF_C14_K", 9) as u32, pairs: true, followups: false, depth2: false, wall_cap_s: envu("VERIF_WALL_CAP", 1500) });
                 let c = wbmap::run(&wbmap::Config { k: 11, pairs: false, followups: false, depth2: false, wall_cap_s: envu("VERIF_WALL_CAP", 600) });
-                merge(vec![("K=7 full", a), ("K=9 pairs", b), ("K=11 unary", c)])
+                let d = wbmap::run_intervals(envu("VERIF_C14_INTERVAL_N", 40) as u32);
+                merge(vec![("K=7 full", a), ("K=9 pairs", b), ("K=11 unary", c), ("interval family n<=40", d)])
             } else {
                 let a = wbmap::run(&wbmap::Config { k: 6, pairs: true, followups: true, depth2: true, wall_cap_s: 120 });
                 let b = wbmap::run(&wbmap::Config { k: 8, pairs: false, followups: false, depth2: false, wall_cap_s: 120 });
-                merge(vec![("K=6 full", a), ("K=8 unary", b)])
+                let d = wbmap::run_intervals(envu("VERIF_C14_INTERVAL_N", 20) as u32);
+                merge(vec![("K=6 full", a), ("K=8 unary", b), ("interval family n<=20", d)])
             }
         }
         "C18" => toposort::run(&toposort::Config {
